@@ -101,9 +101,15 @@ def run_history(spec, y_full, n0, steps, case, shift=0):
             if discs:
                 return obs, discs
     pos = n0
+    cutoff0 = cutoff
     for j, k in enumerate(case["updates"]):
+        fixed_points = False
         if absolute and pools.needs_fh_in_fit(spec):
-            break
+            # the horizon was fixed at fit time: the same absolute time points are forecast
+            # again after an update for as long as they lie ahead of the cutoff (stacking)
+            if spec["kind"] != "stack" or pos + k > len(y_full) or int(y_full.index[pos + k - 1]) >= cutoff0 + steps[0]:
+                break
+            fixed_points = True
         yb = y_full.iloc[pos: pos + k]
         pos += k
         upar = case.get("update_params", [True])[j % len(case.get("update_params", [True]))]
@@ -117,6 +123,18 @@ def run_history(spec, y_full, n0, steps, case, shift=0):
         if isinstance(c, Raised) or int(c) != cutoff:
             discs.append(D("cutoff_after_update", "%s: cutoff %r expected %d" % (pools.describe(spec), c, cutoff)))
             break
+        if fixed_points:
+            p = sut(f.predict)
+            discs += check_pred(p, cutoff0, steps, spec, "after update %d (time points fixed at fit)" % j)
+            if not discs:
+                # the value under a time point is made from the members' forecasts of THAT time point
+                want = sut(lambda: f.final_regressor_.predict(np.column_stack(
+                    [np.asarray(m.predict(fh_for(cutoff0)), dtype=float) for m in f.forecasters_])))
+                if not isinstance(want, Raised) and not np.allclose(p.to_numpy(dtype=float), np.asarray(want, dtype=float), rtol=1e-9, atol=1e-9, equal_nan=True):
+                    discs.append(D("stacked_value_not_for_its_time_point", "%s after update %d: time points %s got %s, from the members' forecasts of these time points %s"
+                                   % (pools.describe(spec), j, [cutoff0 + h for h in steps], p.tolist(), np.asarray(want).tolist())))
+            obs.append(("pred_u", None if isinstance(p, Raised) else (_labels(p.index), p.to_numpy(dtype=float).tolist())))
+            continue
         p = sut(f.predict, fh_for(cutoff) if (absolute or not need_fit or case["repeat_fh"]) else None)
         discs += check_pred(p, cutoff, steps, spec, "after update %d" % j)
         obs.append(("pred_u", None if isinstance(p, Raised) else (_labels(p.index), p.to_numpy(dtype=float).tolist())))
@@ -279,10 +297,28 @@ def cases(draw, depth=2, cheap=False):
     }
 
 
+@st.composite
+def stack_cases(draw):
+    """Stacks fitted with an absolute horizon that starts some steps ahead, then updated."""
+    c = draw(cases(depth=1, cheap=True))
+    members = draw(st.lists(st.one_of(pools.plain_specs(cheap=True), pools.plain_specs(cheap=True), pools.composite_specs(pools.plain_specs(cheap=True), allow_grid=False)),
+                            min_size=1, max_size=3))
+    spec = {"kind": "stack", "members": members, "reg": "linear"}
+    first = draw(st.integers(2, 6))
+    steps = sorted(set([first] + [first + d for d in draw(st.lists(st.integers(1, 4), max_size=3))]))
+    ups = draw(st.lists(st.integers(1, 2), min_size=1, max_size=3))
+    n = pools.min_length(spec, steps[-1]) + 2 + draw(st.integers(0, 12))
+    total = n + sum(ups)
+    vals = c["values"] + draw(gen.series_values(max(0, total - len(c["values"])), max(0, total - len(c["values"])), lo=5.0, hi=500.0))
+    return dict(c, spec=spec, fh=steps, n=n, updates=ups, values=vals[:total] if len(vals) >= total else vals, fh_mode="abs", fh_when="fit",
+                revision=None, other_kind=False)
+
+
 def subchecks():
     return [
         SubCheck("plain", oracle, cases(depth=0), quick=800, thorough=4000, shards_quick=6, shards_thorough=16),
         SubCheck("composite", oracle, cases(depth=2), quick=800, thorough=4000, shards_quick=10, shards_thorough=16),
+        SubCheck("stack_fixed_time_points", oracle, stack_cases(), quick=200, thorough=2000, shards_quick=4, shards_thorough=16),
     ]
 
 
